@@ -46,8 +46,10 @@ TEXT['C10'] = dict(
     text='flux_advection (f[q,z] = sum_k w_k vals[z,q,k]) and general_get_lagrange_vals / get_lagrange_vals (vals[(i-s_j) mod nz, '
          'k, j] = S((q_k + thetaShift_j) mod 2pi), nothing else written) are verified for all shapes, shifts of either sign and '
          'both evaluator families, frames included.',
-    note=PROOF_NOTE + 'Range of the real floor-modulo is a trusted arithmetic fact. Not yet under contract here: '
-         'FluxSurfaceAdvection._getLagrangePts (stencil, weights, theta shifts) and step(); listed as uncovered in the evidence.',
+    note=PROOF_NOTE + 'Range of the real floor-modulo is a trusted arithmetic fact. Class level: FluxSurfaceAdvection.step is verified '
+         'to interpolate column i of its slice and to hand the kernels i, rows (rIdx, cIdx) of its shift / theta-shift / coefficient '
+         'tables, its own points, work array and the spline just computed (wiring, as callee preconditions). Not under contract: '
+         'FluxSurfaceAdvection._getLagrangePts (stencil, Lagrange weights, theta shifts) - bounded part only.',
     technique='loop invariants with frame clauses over 3-index arrays, modular function-parameter contracts, z3')
 
 BOUNDED_NOTE = ('Bounded: the real classes run on a thread-per-rank simulated MPI (vf/shim) that checks collective matching; '
